@@ -107,6 +107,8 @@ Judgeable(step, pool) ==
     IN \* values that left the 1/Q lattice (normals, normalised vectors...) are only known rounded:
        \* a reference computed from them could differ in the last unit, so such sources are not judged by value
        /\ \A k \in DOMAIN step.src : pool[step.src[k]].exact
+       \* operations that decide by comparing values need sources without any floating-point noise
+       /\ (op \in {"Crop", "Filter", "Weld", "RemoveNullFaces", "FlatNormals", "SmoothNormals"} => a.bx)
        /\ CASE op = "CenterAttr" -> HasAttr(a, 3, g.id) => CenterExact(a, g.id)
          [] op = "RemoveNullFaces" ->
                  HasAttr(a, 3, g.id) => (OnIntLattice(AttrData(a, 3, g.id)) /\ SmallInt(AttrData(a, 3, g.id), 1000))
